@@ -188,7 +188,7 @@ def task(p, k, rows, tier, seed):
         for j in range(W):
             e_int[f"X_{r}_{j}"] = float(random.Random(seed + 13 * r + j).randint(-2, 2))
     try:
-        got_i = float_run(p, e_int, k, rows, int_matrix=True)
+        got_i = float_run(p, e_int, k if k != "sym" else 3.0, rows, int_matrix=True)
         probs = concrete_problems(p, e_int, got_i)
         part.record(Q("sat" if probs else "unsat", None, 0.0, ""), f"{key_base}: integer-typed data matrix gives the by-hand NIS (concrete)")
         if probs:
@@ -294,7 +294,26 @@ def task(p, k, rows, tier, seed):
             for r_ in p.s_readings(key):
                 msc = msc + sn[key][r_] * sn[key][r_]
         spec_score = qval(10.0) * (mean * mean) + (1 / var + var) / 2 + qval(0.01) * msc
-        prove_equal(part, PID, f"{tag}: score == 10*mean(sqrt NIS)^2 + (1/sum + sum)/2 + 0.01*sum(noise^2)", lift(sc[0]), spec_score, pa + [var != 0], tmo, replay=mk_replay("score", 0), key=f"{key_base}/score", info=info, all_vars=allv, seeded_envs=seeded_envs)
+        # cut at the NIS values: transform == by-hand NIS is its own obligation above, so the score clause is decided over
+        # the implementation's own transform terms abstracted to fresh variables (the nested NIS terms make the direct
+        # query time out for two-reading sensors and two rows)
+        tr_terms = [lift(tr[r, s_]) for r in range(rows) for s_ in range(nsens)]
+        fresh = [z3.Real(f"nis!{i}") for i in range(len(tr_terms))]
+        pairs = [(a, b) for a, b in zip(tr_terms, fresh) if not z3.is_rational_value(a)]
+        cut_done = False
+        if pairs and len({a.get_id() for a, _ in pairs}) == len(pairs):
+            impl_cut = z3.substitute(lift(sc[0]), *pairs)
+            from .common import free_vars as _fv
+
+            if not any(nm.startswith("X_") for nm in _fv([impl_cut])):
+                sqf = [uf("sqrt")(v) for v in fresh]
+                meanf = sum(sqf[1:], sqf[0]) / len(sqf)
+                varf = sum(fresh[1:], fresh[0])
+                spec_cut = qval(10.0) * (meanf * meanf) + (1 / varf + varf) / 2 + qval(0.01) * msc
+                st_ = prove_equal(part, PID, f"{tag}: score == 10*mean(sqrt NIS)^2 + (1/sum + sum)/2 + 0.01*sum(noise^2) over the transform values (cut at the NIS terms)", impl_cut, spec_cut, [varf != 0] + [v >= 0 for v in fresh] + pyh.noise_positive(pn, sn), min(tmo, 30000), key=f"{key_base}/score", info=info, big_box=False)
+                cut_done = st_ == "proved"
+        if not cut_done:
+            prove_equal(part, PID, f"{tag}: score == 10*mean(sqrt NIS)^2 + (1/sum + sum)/2 + 0.01*sum(noise^2)", lift(sc[0]), spec_score, pa + [var != 0], min(tmo, 30000), replay=mk_replay("score", 0), key=f"{key_base}/score", info=info, all_vars=allv, seeded_envs=seeded_envs)
         # parameters unchanged by the calls
         same = all(params0[kk] is params1[kk] for kk in params0)
         pn_same = all((params1["process_noise"][kk].t if isinstance(params1["process_noise"][kk], SymReal) else params1["process_noise"][kk]) is snap0[0][kk] or lift(params1["process_noise"][kk]).eq(lift(snap0[0][kk])) for kk in snap0[0])
